@@ -3,7 +3,7 @@
        calendar.timegm(time.strptime(date, '%Y-%m-%d')) (generated: fix_date_texts, fix_date_format; the translator
        refuses any other reading).  MODEL: parse_date (strptime for the all-digit form YYYY-MM-DD), days_from_civil
        (the proleptic Gregorian day count timegm uses), utc_midnight.  The reading through katpoint.Timestamp(<string>) the code
-       used before the repair of F117 (ephem date -> time.mktime(fields) - time.timezone) is kept as legacy_midnight: it is
+       used before the repair of C17-F2 (ephem date -> time.mktime(fields) - time.timezone) is kept as legacy_midnight: it is
        UTC midnight only while the zone of the process has TODAY the standard offset it had ON THAT DATE.
    (2) NUMERIC SENSORS OF A PRESELECTED DATA SET, on top of C12's extraction model (Model/Interp.v, Model/SensorCache.v,
        imported unchanged): the getter holds the history telstate returns for get_range(name, st = gen_sensor_range_start)
@@ -61,7 +61,7 @@ Definition next_day (ymd : Z * Z * Z) : Z * Z * Z :=
   let '(y, m, d) := ymd in
   if (d <? days_in_month y m)%Z then (y, m, d + 1)%Z else if (m <? 12)%Z then (y, m + 1, 1)%Z else (y + 1, 1, 1)%Z.
 
-(* katpoint.Timestamp(text).secs as the code read the dates before F117 was repaired: time.mktime(fields, isdst = 0)
+(* katpoint.Timestamp(text).secs as the code read the dates before C17-F2 was repaired: time.mktime(fields, isdst = 0)
    - time.timezone.  west_then = seconds west of UTC of the zone's standard time ON THE DATE, west_now = time.timezone
    (the standard offset of the CURRENT year) *)
 Definition legacy_midnight (west_then west_now : Z) (s : string) : option Z :=
